@@ -295,6 +295,17 @@ def check_expr(case):
         bad = np.argwhere(~np.isclose(ga, ea, rtol=1e-12, atol=0, equal_nan=True))
         i = tuple(bad[0])
         raise Violation(f"value:{t[0]}", f"{len(bad)} entries differ; at {i}: field {got.array[i]!r} numpy {expect[i]!r}")
+    if depth_of(t) == 1 and t[0] in ("add", "sub", "mul", "neg") and all(a.dtype.kind in "fc" for a in arrays.values()):
+        # one floating-point operation: the very same IEEE result, the sign of a zero included (1 / r, arctan2, the phase
+        # of a complex number see it).  Not asserted for longer expressions and integer fields (section 6).
+        ea_ = np.asarray(expect)
+        zero = (got.array == 0) & (ea_ == 0)
+        for part in (np.real, np.imag) if np.iscomplexobj(got.array) or np.iscomplexobj(ea_) else (np.real,):
+            sg, se = np.signbit(part(got.array)), np.signbit(part(ea_))
+            if np.any((sg != se) & zero):
+                i = tuple(np.argwhere((sg != se) & zero)[0])
+                raise Violation(f"zero-sign:{t[0]}", f"at {i}: field {got.array[i]!r} numpy {ea_[i]!r} for {t}")
+        tag("zero-sign-checked")
     for name, f in fields.items():
         if snapshot(f) != snaps[name]:
             raise Violation("operand-modified", f"operand {name} changed while evaluating {t}")
@@ -311,6 +322,32 @@ def check_expr(case):
             if snapshot(f) != snaps[name]:
                 raise Violation("operand-shares-memory-with-result",
                                 f"writing into the result of {t} changed operand {name} (values or validity)")
+
+
+def check_single_ops(case):
+    """every single binary operation in both operand orders against every kind of other operand, on one environment:
+    the family in which a slip of one reflected operator (sign of a zero, operand order of - and /) shows"""
+    k = case["k"]
+    operands = {"V": ["A"], "S": ["S"]} if k > 1 else {"S": ["S"]}
+    done = 0
+    for want, names in operands.items():
+        others = [["num", 2], ["num", -3], ["num", 0.5], ["num", 7], ["num", 0], ["npnum", 4.0], ["cnum", 2, 0], ["T"], ["S"]]
+        if want == "V":
+            others += [["vec", [2] * k], ["vec", [((-1) ** i) * (i + 1) / 2 for i in range(k)]], ["B"]]
+        for op in ("add", "sub", "mul", "div"):
+            for other in others:
+                if other[0] == "cnum" and not case["cplx"]:
+                    continue
+                for t in ([op, [names[0]], other], [op, other, [names[0]]]):
+                    if op == "div" and t[2][0] in ("num", "npnum", "cnum", "vec") and not np.all(np.asarray(t[2][1:]) != 0):
+                        continue
+                    try:
+                        check_expr(dict(case, tree=t, want=want))
+                    except Reject:
+                        continue
+                    done += 1
+    if not done:
+        raise Reject()
 
 
 @st.composite
@@ -567,6 +604,7 @@ def check_reject(case):
 
 SUBS = [
     Sub("expr", check_expr, expr_case(), nontrivial=nontrivial, quick=1500, thorough=8000),
+    Sub("single-ops", check_single_ops, expr_case(), quick=60, thorough=600),
     Sub("commute", check_commute, commute_case(), quick=400, thorough=2000),
     Sub("stack", check_stack, expr_case(), quick=300, thorough=1500),
     Sub("special", check_special, expr_case(), quick=400, thorough=2000),
